@@ -203,6 +203,38 @@ pub open spec fn scoped_same(a: Runtime, b: Runtime) -> bool {
     &&& a.unfill_boundary_stack@.len() == b.unfill_boundary_stack@.len()
 }
 
+// ---- inversion (C03) ----
+pub struct Assembly {
+    pub id: int,
+}
+#[derive(Debug)]
+pub enum InversionError {
+    Generic,
+    Other,
+}
+pub type InversionResult<T = ()> = Result<T, InversionError>;
+impl Node {
+    /// ASSUMED total-or-error: what the inverter builds is out of reach; only the
+    /// signature assigned to the result is under proof.
+    #[verifier::external_body]
+    pub fn un_inverse(&self, asm: &Assembly) -> (r: InversionResult<Node>) {
+        unimplemented!()
+    }
+    #[verifier::external_body]
+    pub fn anti_inverse(&self, asm: &Assembly) -> (r: InversionResult<Node>) {
+        unimplemented!()
+    }
+}
+
+/// R5: a closure `impl FnOnce(&mut Uiua) -> T` run inside a scoped-state helper.
+/// ASSUMED (IH): the body restores every scoped stack to its entry length, whatever it returns.
+pub trait ScopedBody<T>: Sized {
+    fn call(self, env: &mut Uiua) -> (r: T)
+        ensures
+            scoped_same(old(env).rt, final(env).rt),
+    ;
+}
+
 pub struct Msg {}
 #[verifier::external_body]
 pub fn verif_msg() -> Msg {
